@@ -343,8 +343,11 @@ def _case(rng, tier):
 
 
 def cases(rng, tier):
-    for _ in range(4 if tier == "quick" else 40):   # controlled nucleation after spontaneous nucleation
-        yield c01._late_cn(rng, tier)
+    for j in range(4 if tier == "quick" else 40):   # controlled nucleation after spontaneous nucleation
+        c = c01._late_cn(rng, tier)
+        if j == 0:
+            c["seed_v"] = 0
+        yield c
     for _ in range(4 if tier == "quick" else 40):   # recorded subsets given as unsorted int lists
         yield c01._subset(rng, tier)
     n, nh, nt = (42, 8, 6) if tier == "quick" else (1300, 120, 50)
